@@ -1365,6 +1365,64 @@ def diag_indices_from(a):
     return diag_indices(asarray(a).shape[0], asarray(a).ndim)
 
 
+def moveaxis(a, source, destination):
+    a = asarray(a)
+    n = a.ndim
+    src = [(x.__index__() + n) % n for x in (source if isinstance(source, (list, tuple)) else [source])]
+    dst = [(x.__index__() + n) % n for x in (destination if isinstance(destination, (list, tuple)) else [destination])]
+    if len(src) != len(dst):
+        raise ValueError("`source` and `destination` arguments must have the same number of elements")
+    order = [i for i in range(n) if i not in src]
+    for d, s_ in sorted(zip(dst, src)):
+        order.insert(d, s_)
+    return transpose(a, order)
+
+
+def _sliding_window_view(x, window_shape, axis=None, *, subok=False, writeable=False):
+    """np.lib.stride_tricks.sliding_window_view for one axis: a (read-only) VIEW whose last axis
+    runs over the window."""
+    x = asarray(x)
+    if isinstance(window_shape, (tuple, list)):
+        if len(window_shape) != 1:
+            raise Unsupported("sliding_window_view over several axes")
+        window_shape = window_shape[0]
+    w = window_shape.__index__()
+    if axis is None:
+        if x.ndim != 1:
+            raise Unsupported("sliding_window_view without an axis on an N-d array")
+        axis = 0
+    if isinstance(axis, (tuple, list)):
+        axis = axis[0]
+    axis = (axis.__index__() + x.ndim) % x.ndim
+    if w < 0:
+        raise ValueError("`window_shape` cannot contain negative values")
+    if w > x.shape[axis]:
+        raise ValueError("window shape cannot be larger than input array shape")
+    out_shape = list(x.shape)
+    out_shape[axis] = x.shape[axis] - w + 1
+    out_shape.append(w)
+    steps = _c_steps(x.shape)
+    ix = []
+    for combo in itertools.product(*[range(d) for d in out_shape]):
+        p0 = 0
+        for ax in range(x.ndim):
+            j = combo[ax] + (combo[-1] if ax == axis else 0)
+            p0 += j * steps[ax]
+        ix.append(x._ix[p0])
+    return ndarray(x._b, ix, tuple(out_shape), x.dtype, not writeable or x._ro)
+
+
+class _StrideTricks:
+    sliding_window_view = staticmethod(_sliding_window_view)
+
+
+class _Lib:
+    stride_tricks = _StrideTricks()
+
+
+lib = _Lib()
+
+
 def take(a, indices, axis=None, out=None, mode='raise'):
     a = asarray(a)
     if axis is not None:
